@@ -4,7 +4,7 @@
    PlantProofs.v).  Partial: start / shutdown ramp profiles (assets.py:1692-1702, 1731-1775, 1797-1800, 1821-1827) and the
    interplay "initial obligations by bounds" are covered by the implementation oracle only. *)
 From Coq Require Import QArith Qabs ZArith List Bool.
-From EAO Require Import Num LP PlantProofs.
+From EAO Require Import Num LP Plant PlantProofs PlantRows.
 Import ListNotations.
 Open Scope Q_scope.
 
@@ -64,6 +64,21 @@ Theorem C06_fuel_balance :
   (-1 / eff) * p + (- cf / eff) * h + (- cons) * on + (- sf) * st == - ((p + cf * h) / eff + cons * on + sf * st).
 Proof. exact fuel_balance. Qed.
 Print Assumptions C06_fuel_balance.
+
+(* the same statements for the ROWS THE MODEL BUILDER EMITS (Plant.pl_rows_dt / pl_rows_start / pl_rows_rt): a point whose on
+   variables are binary satisfies the down-time rows iff its pattern respects the minimum down time; if it satisfies the start
+   and run-time rows its pattern respects the minimum run time *)
+Theorem C06_plant_downtime_rows_exact :
+  forall x on_idx T D toff, binary (var_at x on_idx) T ->
+  (Forall (row_ok x) (pl_rows_dt on_idx T D toff) <-> downtime_spec T D toff (var_at x on_idx)).
+Proof. exact plant_downtime_rows_exact. Qed.
+Print Assumptions C06_plant_downtime_rows_exact.
+Theorem C06_plant_runtime_rows_sound :
+  forall x on_idx start_idx T R tar, (0 < T)%nat -> binary (var_at x on_idx) T ->
+  Forall (row_ok x) (pl_rows_start on_idx start_idx T tar) -> Forall (row_ok x) (pl_rows_rt on_idx start_idx T R) ->
+  runtime_spec T R tar (var_at x on_idx).
+Proof. exact plant_runtime_rows_sound. Qed.
+Print Assumptions C06_plant_runtime_rows_sound.
 
 (* non-vacuity: T = 5, minimum run time 3, off before: the pattern 0 1 1 1 0 is admissible, 0 1 1 0 0 is not *)
 Definition pat (l : list Q) : nat -> Q := fun t => nth t l 0.
